@@ -332,9 +332,15 @@ func (e *Exec) Concretize(t *Term, limit int, what string) uint64 {
 		}
 		d.open = false
 		d.val = v
-		// sibling: everything else
+		// sibling: everything else -- only if some other value is feasible (one query saves a whole re-execution)
 		sib := decision{kind: dConc, open: true, excl: append(append([]uint64(nil), d.excl...), v)}
-		if replay {
+		if r, _ := e.check(e.ctx.Not(e.ctx.Cmp(OpEq, t, e.ctx.BV(v, t.w)))); r == Unsat {
+			if replay {
+				e.trace[e.pos] = d
+			} else {
+				e.trace = append(e.trace, d)
+			}
+		} else if replay {
 			e.trace[e.pos] = d
 			p := make([]decision, e.pos, e.pos+1)
 			copy(p, e.trace[:e.pos])
